@@ -387,6 +387,10 @@ def run(r):
         if rc != 0 or len(codes) != len(cases):
             r.broken_obligation("tie-driver", "the extracted driver failed (%d results for %d cases)" % (len(codes), len(cases)), (out[-500:] + err[-1500:]))
             return
+        ovf = [i for i, k in enumerate(codes) if k[0] == "9"]
+        if ovf:
+            r.broken_obligation("tie-driver-stack", "the extracted reference ran out of stack on %d cases (an artefact of the reference, not an outcome)" % len(ovf),
+                                json.dumps([cases[i]["line"][:600] for i in ovf[:3]]))
         for i, k in enumerate(codes):
             if k[0] == "1":
                 mism.append(i)
